@@ -159,6 +159,11 @@ Definition dispatch (op : string) (args : list tree) : tree :=
   | "expand", [L q] => t_out (fun l => N (map t_sid (sort_sids l))) (expand Ld q)
   | "find_list", [items; L q] =>
       match t_strs items with Some it => t_out of_strs (find_list Ld it q) | None => bad end
+  (* FindInList(items, do_pre_sort=True): the list is replaced by its sorted set at construction *)
+  | "find_list", [items; L q; L "pre_sort"] =>
+      match t_strs items with Some it => t_out of_strs (find_list Ld (sort_s (nodup_s it)) q) | None => bad end
+  | "find_list_sids", [items; L q; L "pre_sort"] =>
+      match t_strs items with Some it => t_out (fun l => N (map t_sid l)) (find_list_sids Ld (sort_s (nodup_s it)) q) | None => bad end
   | "find_list_sids", [items; L q] =>
       match t_strs items with Some it => t_out (fun l => N (map t_sid l)) (find_list_sids Ld it q) | None => bad end
   | "find_one", [items; L q] =>
